@@ -1,0 +1,156 @@
+//go:build verif
+
+package mvp8_0
+
+import (
+	"sort"
+	"sync"
+
+	"github.com/teivah/majorana/proc/comp"
+	"github.com/teivah/majorana/risc"
+)
+
+// Verification hooks (build tag `verif`, property C06 of /verif): a read-only snapshot of
+// the MSI directory and of the cache controllers, and a rig that exposes the controllers
+// without a pipeline. Nothing outside verif-tagged code calls them.
+
+// VerifSnapshot exports the protocol state of the machine (call it at a cycle boundary).
+func (m *CPU) VerifSnapshot() comp.VerifMsiSnapshot {
+	return verifSnapshot(m.msi, m.cacheControllers, m.l3)
+}
+
+func verifSortedKeys(m map[comp.AlignedAddress]*comp.Sem) []int32 {
+	res := make([]int32, 0, len(m))
+	for k := range m {
+		res = append(res, int32(k))
+	}
+	sort.Slice(res, func(i, j int) bool { return res[i] < res[j] })
+	return res
+}
+
+func verifSnapshot(ms *msi, ccs []*cacheController, l3 *comp.LRUCache) comp.VerifMsiSnapshot {
+	s := comp.VerifMsiSnapshot{L1LineSize: l1DCacheLineSize, L3LineSize: l3CacheLineSize}
+	for e, st := range ms.states {
+		s.States = append(s.States, comp.VerifMsiState{Core: e.id, Addr: int32(e.alignedAddr), State: st})
+	}
+	sort.Slice(s.States, func(i, j int) bool {
+		if s.States[i].Core != s.States[j].Core {
+			return s.States[i].Core < s.States[j].Core
+		}
+		return s.States[i].Addr < s.States[j].Addr
+	})
+	for req, info := range ms.commands {
+		s.Cmds = append(s.Cmds, comp.VerifMsiCmd{Core: req.id, Addr: int32(req.alignedAddr), Kind: req.request, Done: info.doneFlag})
+	}
+	sort.Slice(s.Cmds, func(i, j int) bool {
+		a, b := s.Cmds[i], s.Cmds[j]
+		if a.Core != b.Core {
+			return a.Core < b.Core
+		}
+		if a.Addr != b.Addr {
+			return a.Addr < b.Addr
+		}
+		return a.Kind < b.Kind
+	})
+	for addr, sem := range ms.pendings {
+		r, w := sem.VerifCounts()
+		s.Sems = append(s.Sems, comp.VerifMsiSem{Addr: int32(addr), Read: r, Write: w})
+	}
+	sort.Slice(s.Sems, func(i, j int) bool { return s.Sems[i].Addr < s.Sems[j].Addr })
+	for _, cc := range ccs {
+		n, _ := cc.l1d.VerifGeometry()
+		s.L1Lines = n
+		s.Cores = append(s.Cores, comp.VerifMsiCore{
+			ReadActive:   !cc.read.IsStart(),
+			WriteActive:  !cc.write.IsStart(),
+			SnoopPending: !cc.snoop.IsStart(),
+			RLocks:       verifSortedKeys(cc.l1RLockSems),
+			Locks:        verifSortedKeys(cc.l1LockSems),
+			L1:           cc.l1d.VerifLines(),
+		})
+	}
+	s.L3 = l3.VerifLines()
+	for addr, w := range ms.l3Write {
+		if w {
+			s.L3Dirty = append(s.L3Dirty, int32(addr))
+		}
+	}
+	sort.Slice(s.L3Dirty, func(i, j int) bool { return s.L3Dirty[i] < s.L3Dirty[j] })
+	for addr, mu := range ms.l3Lock {
+		if verifMutexHeld(mu) {
+			s.L3Locked = append(s.L3Locked, int32(addr))
+		}
+	}
+	sort.Slice(s.L3Locked, func(i, j int) bool { return s.L3Locked[i] < s.L3Locked[j] })
+	return s
+}
+
+// verifMutexHeld observes a mutex of the (single-threaded) simulator without changing it.
+func verifMutexHeld(mu *sync.Mutex) bool {
+	if mu.TryLock() {
+		mu.Unlock()
+		return false
+	}
+	return true
+}
+
+// VerifRig is a directory, a memory and `cores` cache controllers without a pipeline.
+type VerifRig struct {
+	ctx *risc.Context
+	mmu *memoryManagementUnit
+	msi *msi
+	l3  *comp.LRUCache
+	ccs []*cacheController
+}
+
+// NewVerifRig builds the rig exactly as NewCPU builds that part of the machine.
+func NewVerifRig(cores int, memoryBytes int) *VerifRig {
+	ctx := risc.NewContext(false, memoryBytes, true)
+	mmu := newMemoryManagementUnit(ctx)
+	ms := newMSI()
+	l3 := comp.NewLRUCache(l3CacheLineSize, l3CacheSize)
+	r := &VerifRig{ctx: ctx, mmu: mmu, msi: ms, l3: l3}
+	for i := 0; i < cores; i++ {
+		r.ccs = append(r.ccs, newCacheController(i, ctx, mmu, ms, l3))
+	}
+	return r
+}
+
+// Memory is the backing memory (the rig's owner may initialise it before the first request).
+func (r *VerifRig) Memory() []int8 { return r.ctx.Memory }
+
+// Snoop runs one cycle of a core's snoop coroutine (CPU.Run does this for every core, in
+// order, before the execute units).
+func (r *VerifRig) Snoop(core int) { r.ccs[core].snoop.Cycle(struct{}{}) }
+
+// Read runs one cycle of a core's read coroutine with the given request (an execute unit
+// repeats the call with the same request every cycle until done).
+func (r *VerifRig) Read(core int, cycle int, addrs []int32) ([]int8, bool) {
+	resp := r.ccs[core].read.Cycle(ccReadReq{cycle, addrs})
+	return resp.data, resp.done
+}
+
+// Write runs one cycle of a core's write coroutine.
+func (r *VerifRig) Write(core int, cycle int, addrs []int32, data []int8) bool {
+	return r.ccs[core].write.Cycle(ccWriteReq{cycle, addrs, data}).done
+}
+
+// Flush is what executeUnit.flush does to its cache controller.
+func (r *VerifRig) Flush(core int) { r.ccs[core].flush() }
+
+// Idle tells whether the three coroutines of a core are at their start.
+func (r *VerifRig) Idle(core int) bool { return r.ccs[core].isEmpty() }
+
+// Export writes the Modified lines back to L3 or memory, then L3 to memory, as the end of
+// CPU.Run does.
+func (r *VerifRig) Export() {
+	for _, cc := range r.ccs {
+		cc.writeBack()
+	}
+	for _, line := range r.l3.Lines() {
+		r.mmu.writeToMemory(line.Boundary[0], line.Data)
+	}
+}
+
+// Snapshot exports the protocol state of the rig.
+func (r *VerifRig) Snapshot() comp.VerifMsiSnapshot { return verifSnapshot(r.msi, r.ccs, r.l3) }
